@@ -25,6 +25,10 @@ CHECKS = {
   text="The structured recursion family (8 mechanisms x cycles of length 1..8 and chains of depth 1..80) is enumerated completely in both tiers, with sampled decorations and caller stack sizes 2/8/256 MiB; bounded progress is decided by step and open budgets, stack exhaustion by the death of the worker process. Exhaustive over the family, sampling over decorations.",
   note="Trusts: hooks faithful; FileScope/MacroScope probes report true nesting; a 2 MiB caller stack is the smallest in the claim; exponential fan-out chains are outside the family.",
   tech="deterministic simulation: enumerated include/macro recursion graphs on a simulated file system, step/open budgets as progress measure, process-level crash containment, stack-size knob"),
+"C10": dict(cat="fault_enumeration", ref="§6 C10, Appendix C",
+  text="Include graphs in a line language over the simulated file system, each named file present as distinct physical copies in none/one/several of cwd and the search directories, with faults on the resolution conversation (TOCTOU vanish/appear on exists, ENOENT/EACCES on open, non-UTF-8 copy). An executable reference model independent of the repository interprets the language and conducts its own exists/open/read conversation with a twin file system; operation logs, output tokens, returned define table and error value must all agree. Sampling over graphs; per graph every include edge is exercised.",
+  note="Trusts: the reference model (about 250 lines, restricted to a line language whose semantics the statement fixes); Vfs semantics; hooks faithful. String literals appear only as rejected same-line neighbours; same-line neighbours are not generated under ignore_include.",
+  tech="deterministic simulation: reference-model refinement check over a simulated file system with TOCTOU/open/read fault injection and an I/O-conversation monitor"),
 "C19": dict(cat="exploration", ref="§6 C19",
   text="Seeded search over interleavings of 2-4 simulated caller threads (real OS threads parked and released one at a time at every grammar terminal, parser-state mutation and file operation; random, PCT and mutation-biased policies); every call must return what it returns when its thread's program runs alone. Failing schedules are frozen to an explicit switch list and minimised.",
   note="Trusts: hooks faithful; every write to thread-local parser state is preceded by a yield point; the scheduler serialises execution, so data-race UB itself (as opposed to its logical effect) is not observable.",
